@@ -1,6 +1,11 @@
-(* C01 — placeholder until the refinement theorems are stated (see below in later commits). *)
+(* C01 — Thrift reads return exactly what the bytes encode.
+   Statements only; proofs are in proofs/ThriftWireProofs.v and proofs/ThriftGenericProofs.v.
+   Reading guide: [lookup] (model/ThriftGeneric.v) is the AST-level meaning of a path (the "independent
+   decoder" view: decode, then walk the tree); [get_by_path] is the byte-level algorithm of
+   thrift/generic/node.go (searchFieldId / searchIndex / searchStrKey / searchIntKey / searchBinKey:
+   chained skip over the buffer, final skip + slice). *)
 From Coq Require Import ZArith List Bool Lia.
-From DG Require Import ProtoWireRef ThriftWire ThriftWireProofs.
+From DG Require Import ProtoWireRef CaseFormat ThriftWire ThriftWireProofs ThriftGeneric ThriftGenericProofs.
 Import ListNotations.
 Local Open Scope Z_scope.
 
@@ -13,3 +18,118 @@ Theorem C01_skip_exact :
   forall v, wf v = true -> forall d r, (depth v <= d)%nat -> skip d (type_of v) (encode v ++ r) = Some r.
 Proof. exact skip_encode. Qed.
 Print Assumptions C01_skip_exact.
+
+(* The byte-level search finds exactly what the AST-level lookup finds: same type, same start, end =
+   start + encoded length; NotFound exactly when the lookup says NotFound (absent field / key / index
+   >= size of a container the prefix reaches, at any level); Err exactly when the lookup says Err (step
+   kind does not fit the value, negative index, key kind does not fit the key type). For every
+   well-formed value within the skip depth limit, every path, any trailing bytes r, any base offset. *)
+Theorem C01_get_by_path_refines_lookup : forall p v r off,
+  wf v = true -> (depth v <= max_skip_depth)%nat ->
+  get_by_path (type_of v) (encode v ++ r) off p =
+    match lookup v off p with
+    | LFound sub o => GFound (type_of sub) o (o + zlen (encode sub))
+    | LNotFound => GNotFound
+    | LErr => GErr
+    end.
+Proof. exact get_by_path_refines_lookup. Qed.
+Print Assumptions C01_get_by_path_refines_lookup.
+
+(* one theorem per search function (the lemmas the main theorem is assembled from) *)
+Theorem C01_search_step_refines : forall v s r, wf v = true -> (depth v <= max_skip_depth)%nat ->
+  match lookup1 v s with
+  | LFound sub o => exists r', search1 (type_of v) s (encode v ++ r) = SFound (type_of sub) o (encode sub ++ r')
+  | LNotFound => search1 (type_of v) s (encode v ++ r) = SNotFound
+  | LErr => search1 (type_of v) s (encode v ++ r) = SErr
+  end.
+Proof. intros v s r Hw Hd. exact (search1_refines v s r (conj Hw Hd)). Qed.
+Print Assumptions C01_search_step_refines.
+
+(* same byte span: the bytes [off, off + |encode sub|) of the root ARE the encoding of the sub-value *)
+Theorem C01_found_span_is_encoding : forall v p sub off, lookup v 0 p = LFound sub off ->
+  0 <= off /\ off + zlen (encode sub) <= zlen (encode v) /\
+  firstn (length (encode sub)) (skipn (Z.to_nat off) (encode v)) = encode sub.
+Proof. exact found_span_is_encoding. Qed.
+Print Assumptions C01_found_span_is_encoding.
+
+(* same value: decoding the span with the independent decoder yields the sub-value *)
+Theorem C01_found_span_decodes : forall v p sub off, wf v = true -> (depth v <= max_skip_depth)%nat ->
+  lookup v 0 p = LFound sub off ->
+  decode (depth sub) (type_of sub) (firstn (length (encode sub)) (skipn (Z.to_nat off) (encode v))) = Some (sub, []).
+Proof. exact found_span_decodes. Qed.
+Print Assumptions C01_found_span_decodes.
+
+(* children listings (Children / iterators): exactly the children, in wire order, each with the span the
+   indexed lookup gives, consecutive spans, covering the container body *)
+Theorem C01_children_spans_elems : forall es off,
+  map (fun q => fst (fst q)) (spans_elems es off) = map type_of es /\
+  (forall n x, nth_error es n = Some x ->
+     exists o, find_index n es off = LFound x o /\ nth_error (spans_elems es off) n = Some (type_of x, o, o + zlen (encode x))) /\
+  chained 0 (map (fun q => (snd (fst q), snd q)) (spans_elems es off)) off (off + zlen (flat_map encode es)).
+Proof. exact spans_elems_children. Qed.
+Print Assumptions C01_children_spans_elems.
+
+Theorem C01_children_spans_fields : forall fs off,
+  map (fun q => (fst (fst (fst q)), snd (fst (fst q)))) (spans_fields fs off) = map (fun f => (fst f, type_of (snd f))) fs /\
+  (forall n f, nth_error fs n = Some f ->
+     nth_error (spans_fields fs off) n =
+       Some (fst f, type_of (snd f),
+             off + zlen (flat_map (fun f => type_of (snd f) :: enc_int 2 (fst f) ++ encode (snd f)) (firstn n fs)) + 3,
+             off + zlen (flat_map (fun f => type_of (snd f) :: enc_int 2 (fst f) ++ encode (snd f)) (firstn n fs)) + 3 + zlen (encode (snd f)))) /\
+  chained 3 (map (fun q => (snd (fst q), snd q)) (spans_fields fs off)) off
+            (off + zlen (flat_map (fun f => type_of (snd f) :: enc_int 2 (fst f) ++ encode (snd f)) fs)).
+Proof. exact spans_fields_children. Qed.
+Print Assumptions C01_children_spans_fields.
+
+Theorem C01_children_spans_pairs : forall es off,
+  map (fun q => snd (fst (fst q))) (spans_pairs es off) = map (fun e => type_of (snd e)) es /\
+  (forall n e, nth_error es n = Some e ->
+     let o := off + zlen (flat_map (fun e => encode (fst e) ++ encode (snd e)) (firstn n es)) in
+     nth_error (spans_pairs es off) n =
+       Some (o, type_of (snd e), o + zlen (encode (fst e)), o + zlen (encode (fst e)) + zlen (encode (snd e)))) /\
+  chained 0 (map (fun q => (fst (fst (fst q)), snd q)) (spans_pairs es off)) off
+            (off + zlen (flat_map (fun e => encode (fst e) ++ encode (snd e)) es)).
+Proof. exact spans_pairs_children. Qed.
+Print Assumptions C01_children_spans_pairs.
+
+(* listing and keyed lookup agree on the span of the element a key addresses *)
+Theorem C01_listing_agrees_with_field_lookup : forall fs off id sub o, find_field id fs off = LFound sub o ->
+  In (id, type_of sub, o, o + zlen (encode sub)) (spans_fields fs off).
+Proof. exact spans_fields_lookup. Qed.
+Print Assumptions C01_listing_agrees_with_field_lookup.
+
+Theorem C01_listing_agrees_with_key_lookup : forall pr es off sub o, find_key pr es off = LFound sub o ->
+  exists ks, In (ks, type_of sub, o, o + zlen (encode sub)) (spans_pairs es off).
+Proof. exact spans_pairs_lookup. Qed.
+Print Assumptions C01_listing_agrees_with_key_lookup.
+
+Theorem C01_children_cover : forall v,
+  match v with
+  | VStruct fs => chained 3 (map (fun q => (snd (fst q), snd q)) (spans_fields fs 0)) 0 (zlen (encode v) - 1)
+  | VList _ es => chained 0 (map (fun q => (snd (fst q), snd q)) (spans_elems es 5)) 5 (zlen (encode v))
+  | VSet _ es => chained 0 (map (fun q => (snd (fst q), snd q)) (spans_elems es 5)) 5 (zlen (encode v))
+  | VMap _ _ es => chained 0 (map (fun q => (fst (fst (fst q)), snd q)) (spans_pairs es 6)) 6 (zlen (encode v))
+  | _ => True
+  end.
+Proof. exact children_cover. Qed.
+Print Assumptions C01_children_cover.
+
+(* ---- non-vacuity: a 3-level struct / list / map value with a double-keyed map and an id-300 field ---- *)
+Definition ex_dkey : tval := VDouble 4607182418800017408.        (* 1.0 *)
+Definition ex_v : tval :=
+  VStruct [ (300, VList T_STRUCT [ VStruct [ (1, VMap T_DOUBLE T_STRING [ (ex_dkey, VString [97; 98]) ]) ]; VStruct [] ]);
+            (1, VI32 (-5));
+            (2, VMap T_STRING T_I64 [ (VString [107], VI64 7) ]);
+            (32767, VSet T_BYTE []) ].
+
+Example ex_v_wf : wf ex_v = true. Proof. vm_compute. reflexivity. Qed.
+Example ex_v_depth : (depth ex_v <= max_skip_depth)%nat. Proof. unfold max_skip_depth. cbn. lia. Qed.
+Example ex_found : lookup ex_v 0 [PField 300; PIndex 0; PField 1; PBinKey (encode ex_dkey)] = LFound (VString [97; 98]) 25.
+Proof. vm_compute. reflexivity. Qed.
+Example ex_found_bytes : get_by_path T_STRUCT (encode ex_v) 0 [PField 300; PIndex 0; PField 1; PBinKey (encode ex_dkey)] = GFound T_STRING 25 31.
+Proof. vm_compute. reflexivity. Qed.
+Example ex_notfound_last : lookup ex_v 0 [PField 2; PStrKey [120]] = LNotFound. Proof. vm_compute. reflexivity. Qed.
+Example ex_notfound_inner : lookup ex_v 0 [PField 300; PIndex 2; PField 1] = LNotFound. Proof. vm_compute. reflexivity. Qed.
+Example ex_err_kind : lookup ex_v 0 [PField 1; PIndex 0] = LErr. Proof. vm_compute. reflexivity. Qed.
+Example ex_err_negative : lookup ex_v 0 [PField 300; PIndex (-1)] = LErr. Proof. vm_compute. reflexivity. Qed.
+Example ex_empty_container : lookup ex_v 0 [PField 32767; PIndex 0] = LNotFound. Proof. vm_compute. reflexivity. Qed.
